@@ -38,7 +38,9 @@ class JsonRPC:
         self._status_by_error = status_by_error
 
         kwargs.setdefault('json_loader', flask.json.loads)
-        kwargs.setdefault('json_dumper', flask.json.dumps)
+        # flask's json provider installs its own ``default`` hook unless one is given, which would
+        # shadow the ``default`` method of the dispatcher's encoder class
+        kwargs.setdefault('json_dumper', ft.partial(flask.json.dumps, default=None))
 
         self._dispatcher = FlaskDispatcher(**kwargs)
         self._endpoints: Dict[str, FlaskDispatcher] = {'': self._dispatcher}
